@@ -30,8 +30,10 @@ U1_LOOPS = [
      % (INSTR, pow10_table('scale', 'result', lambda c: 18 - c, range(0, 9))),
      '__CPROVER_decreases(scale)'],
     # 3: ignored fraction digits
+    # (the characters skipped here are all digits: at most 20, so the fact is a finite conjunction, no quantifier; the multiply loop reads them again)
     ['__CPROVER_assigns(str, max_digits)',
-     '__CPROVER_loop_invariant(%s && 0 <= max_digits && max_digits <= 20)' % INSTR,
+     '__CPROVER_loop_invariant(%s && 0 <= max_digits && max_digits <= 20 && __CPROVER_POINTER_OFFSET(str) == __CPROVER_POINTER_OFFSET(__CPROVER_loop_entry(str)) + (20 - max_digits) && %s)'
+     % (INSTR, ' && '.join('(%d >= 20 - max_digits || (__CPROVER_loop_entry(str)[%d] >= \'0\' && __CPROVER_loop_entry(str)[%d] <= \'9\'))' % (k, k, k) for k in range(20))),
      '__CPROVER_decreases(max_digits)'],
     # 4: exponent digits
     ['__CPROVER_assigns(str, max_digits, eresult)',
@@ -43,8 +45,9 @@ U1_LOOPS = [
      '__CPROVER_loop_invariant(scale <= 0 && scale >= -1000000 && result >= 0 && result <= __CPROVER_loop_entry(result))',
      '__CPROVER_decreases(-scale)'],
     # 6: positive scale: multiply
-    ['__CPROVER_assigns(scale, result, verif_exc)',
-     '__CPROVER_loop_invariant(scale >= 0 && result >= 0 && result < 1000000000000000000LL && verif_exc == 0)',
+    ['__CPROVER_assigns(scale, result, extra_digits, verif_exc)',
+     '__CPROVER_loop_invariant(scale >= 0 && result >= 0 && result < 1000000000000000000LL && verif_exc == 0 && __CPROVER_same_object(extra_digits, extra_digits_end) && '
+     '__CPROVER_POINTER_OFFSET(__CPROVER_loop_entry(extra_digits)) <= __CPROVER_POINTER_OFFSET(extra_digits) && __CPROVER_POINTER_OFFSET(extra_digits) <= __CPROVER_POINTER_OFFSET(extra_digits_end))',
      '__CPROVER_decreases(scale)'],
 ]
 U1_CONTRACT = [
@@ -69,7 +72,7 @@ def cex_coord(cex, o):
 PIPELINES = [
     Pipeline('U1_coordinate_parser_safety', units=[U_s2c], prelude=GHOST, contracts={'string_to_location_coordinate': U1_CONTRACT},
              loops={'string_to_location_coordinate': U1_LOOPS}, harness=H_U1, enforce='string_to_location_coordinate',
-             canaries=['canary:normal-return-reachable', 'canary:throw-reachable'], timeout=300,
+             canaries=['canary:normal-return-reachable', 'canary:throw-reachable'], timeout=1200, split=14,
              replay=('c13_text', cex_coord),
              note='arbitrary NUL-terminated string of any length: no read past the NUL, no signed overflow, exception class, consumption'),
 ]
